@@ -85,3 +85,8 @@ claim("C18",
 claim("C20",
       "Decides that handlers are grouped under a key that depends on the physical location only, that every discovered handler is appended exactly once to its group (unconditional append on every iteration over the whole input, no overwrite), that every member of a group becomes a handler of the device and takes part in the type decision, one device per group; that DetermineDeviceType and the capability predicates use their slice arguments only through len() and whole-slice iteration (no positional selection, so the type cannot depend on discovery order) and that the precedence is joystick, then standard keyboard, then not playable. ID/name/handler order of a device follow discovery order (noted, not constrained by the statement).",
       COMMON_NOTE, "loop-structure (dominance of the append over the latch) and use-def rules over go/ssa + path-effect enumeration of the type decision")
+
+claim("C17",
+      "Decides the clauses of the LED statement that are not a colour function: MIDI-input tracking marks a key only under a dominating velocity != 0 test and clears it for Note Off and for Note On with velocity 0, under the tracker mutex; no write into the LED array goes through the zero default of a failed map lookup (indices are loop indices or come from the hit edge of a comma-ok lookup); after the refresh loop every LED is set to red and the frame is sent on every exit; panic replaces the external highlight map; all device-state reads of a frame and the UpdateLEDs call lie in one critical section of the event mutex (external notes under their own mutex); the LED transposition offset has the same affine int form as NoteOn's. The colour function itself (which colour each LED shows in each state/layout) is NOT decided: that would be evaluating a 170-line value-level function, i.e. testing.",
+      COMMON_NOTE + " len(dev.Colors) == len(dev.LEDs) per the OpenRGB protocol.",
+      "dominating-guard rules, index-origin classification and must-lockset analysis over go/ssa; affine-form comparison between sibling computations")
